@@ -54,6 +54,7 @@ def c08(tier):
     # the other half of the property: a truncated file is rejected, not loaded as another table (reader's full-range validations)
     vg.vg2(P, C)
     ed.ed5(P, C)
+    ed.ed6(P, C)
     C.extra["units"] = sorted(P.units.keys())
     C.extra["cfitsio_call_sites"] = n
     return C.finish()
@@ -250,6 +251,8 @@ def c05(tier):
     n = kb.kb6(P, C)
     C.extra["index_sites"] = kb.kb5(P, C)
     kb.kb8(P, C)
+    # 'trip no internal assertion': every assert on the evaluation path is one of the discharged kinds
+    kb.as1(P, C)
     kb.sc4(P, C)
     # which core reads centers[D]/order[D]/strides[D] is decided by the dispatch table
     dp.dp(P, C)
@@ -272,6 +275,8 @@ def c04(tier):
     # comparisons mean what they say only while nobody switches the FPU to flush-to-zero / another rounding mode
     ed.env1(P, C)
     kb.sc123(P, C)
+    # the call operator looks the centres up into a scratch array of its own: it must hold one centre per dimension
+    kb.kb8(P, C)
     C.extra["units"] = sorted(P.units.keys())
     return C.finish()
 
@@ -428,6 +433,8 @@ def c19(tier):
     sm.sm7(P, C)
     # 'for any table file': a file that is no table, or a declaration that does not fit it, is refused, not indexed with
     sm.vg5(P, C)
+    # the size model counts the auxiliary keys with the reader's own filter and the reader's own way of reading cards
+    ax.fs4(P, C)
     # the model reads the per-dimension orders through readOrder: ORDERn must land in order[n] there as in the reader
     fs.fs8(P, C)
     n = sm.ts3a(P, C)
